@@ -95,35 +95,20 @@ def run(repo, rep):
     # printing pipeline, when some function of the pipeline adds or removes keys of that object: another thread's print resizes it
     # between two steps of the loop and the loop raises RuntimeError (dictionary changed size during iteration).  A snapshot taken by
     # one call (list(d), tuple(d), sorted(d), d.copy()) is a single operation and is not a loop over the live object.
-    RESIZERS = set(SS.REMOVERS) | {'setitem', 'delitem', 'update', 'setdefault', 'add', 'discard', 'clear', 'popitem'}
-    resized = {}
-    for s in cone_sites:
-        if s.kind == 'write' and s.detail in RESIZERS and s.obj.kind in ('dict', 'set'):
-            resized.setdefault(s.obj.key, []).append(s)
-    fns_by_key = {f.key: f for f in repo.all_functions()}
-    for fk in sorted(cone):
-        f = fns_by_key.get(fk)
-        if f is None:
-            continue
-        shared_names = {o.name: o for (mn, nm), o in shared.items() if o.module is f.module} if isinstance(shared, dict) else {}
-        for lp in ast.walk(f.node):
-            if not isinstance(lp, (ast.For, ast.comprehension)):
-                continue
-            itx = lp.iter
-            if isinstance(itx, ast.Call) and isinstance(itx.func, ast.Attribute) and itx.func.attr in ('items', 'keys', 'values') and not itx.args:
-                itx = itx.func.value
-            if not isinstance(itx, ast.Name):
-                continue
-            o = shared_names.get(itx.id)
-            if o is None or o.key not in resized:
-                continue
-            n += 1
-            w0 = resized[o.key][0]
-            common = SS.held_locks(lp.iter, f.node, lock_names) & SS.held_locks(w0.node, w0.fn.node, lock_names)
-            rep.check(bool(common), 'C20.a', '%s:iterates-while-resized:%s' % (f.qualname, o.name), '%s:%d' % (f.module.relpath, lp.iter.lineno),
-                      'loop and resizing write under a common lock',
-                      '%s loops over the shared %s %s (%s) while %s %s it at %s: a concurrent print resizes it between two steps of the loop, which '
-                      'then raises RuntimeError (changed size during iteration)' % (f.key, o.kind, o.key, src(lp.iter), w0.fn.key, w0.detail, w0.where), nontrivial=True)
+    for f, o, lp, w0 in _iterates_while_resized(repo, cone, shared, cone_sites):
+        n += 1
+        common = SS.held_locks(lp.iter, f.node, lock_names) & SS.held_locks(w0.node, w0.fn.node, lock_names)
+        rep.check(bool(common), 'C20.a', '%s:iterates-while-resized:%s' % (f.qualname, o.name), '%s:%d' % (f.module.relpath, lp.iter.lineno),
+                  'loop and resizing write under a common lock',
+                  '%s loops over the shared %s %s (%s) while %s %s it at %s: a concurrent print resizes it between two steps of the loop, which '
+                  'then raises RuntimeError (changed size during iteration)' % (f.key, o.kind, o.key, src(lp.iter), w0.fn.key, w0.detail, w0.where), nontrivial=True)
+    # positive control of that rule (its expected count on the tree is zero)
+    n += 1
+    ctl2 = _control_iterates()
+    rep.check(ctl2, 'C20.a', 'control:loop-over-resized-dict-is-recognised', 'selfcheck', 'rule matches its positive example',
+              'the iterate-while-resized matcher no longer recognises "for k in D: ..." next to "D.pop(k)"')
+    if not ctl2:
+        rep.error('positive control of C20.a (iterate-while-resized) failed')
     # positive control: the rule must still recognise the classic shape (kept as an in-memory example)
     ctl = _control_fires()
     n += 1
@@ -180,6 +165,56 @@ def _block_containing(node, root):
             if isinstance(blk, list) and any(node in list(ast.walk(s)) for s in blk):
                 best = blk
     return best
+
+
+def _iterates_while_resized(repo, cone, shared, cone_sites):
+    """[(function, shared object, loop / comprehension node, one resizing write)]: Python-level loops over a shared dict / set (or a
+    view of it) in the cone, where some function of the cone adds or removes keys of that object"""
+    RESIZERS = set(SS.REMOVERS) | {'setitem', 'delitem', 'update', 'setdefault', 'add', 'discard', 'clear', 'popitem'}
+    resized = {}
+    for s in cone_sites:
+        if s.kind == 'write' and s.detail in RESIZERS and s.obj.kind in ('dict', 'set'):
+            resized.setdefault(s.obj.key, []).append(s)
+    fns_by_key = {f.key: f for f in repo.all_functions()}
+    out = []
+    for fk in sorted(cone):
+        f = fns_by_key.get(fk)
+        if f is None:
+            continue
+        shared_names = {o.name: o for (mn, nm), o in shared.items() if o.module is f.module} if isinstance(shared, dict) else {}
+        for lp in ast.walk(f.node):
+            if not isinstance(lp, (ast.For, ast.comprehension)):
+                continue
+            itx = lp.iter
+            if isinstance(itx, ast.Call) and isinstance(itx.func, ast.Attribute) and itx.func.attr in ('items', 'keys', 'values') and not itx.args:
+                itx = itx.func.value
+            if not isinstance(itx, ast.Name):
+                continue
+            o = shared_names.get(itx.id)
+            if o is None or o.key not in resized:
+                continue
+            out.append((f, o, lp, resized[o.key][0]))
+    return out
+
+
+def _control_iterates():
+    from engine.loader import Repo
+    ctl_src = (
+        "_D = {}\n"
+        "def f():\n"
+        "    return [k for k in _D.keys() if k]\n"
+        "def g(k):\n"
+        "    _D.pop(k, None)\n"
+    )
+    try:
+        repo = Repo(None, {'prettyprinter/_verif_control.py': ctl_src})
+        shared = effects.shared_objects(repo)
+        sites = effects.sites(repo, shared)
+        cone = {f.key for f in repo.all_functions()}
+        found = _iterates_while_resized(repo, cone, shared, [s for s in sites if s.fn is not None])
+    except Exception:
+        return False
+    return len(found) == 1 and found[0][0].name == 'f' and found[0][1].name == '_D'
 
 
 def _control_fires():
